@@ -145,6 +145,9 @@ func genMsg(r *rand.Rand, client bool) (string, string) {
 		}
 		sb.WriteString(fmt.Sprintf("%s%s:%s%s%s\r\n", []string{"K0", "content-type", "x-a-b", "A!#", "Host", "Connection"}[r.Intn(6)], sp(r), sp(r), []string{"v", "a b", "", "x,y", "\tq", "close", "keep-alive"}[r.Intn(7)], sp(r)))
 	}
+	if r.Intn(6) == 0 {
+		sb.WriteString("Trailer: " + []string{"A", "X-Checksum", "A, B"}[r.Intn(3)] + "\r\n") // also on non-chunked messages
+	}
 	body := strings.Repeat("b", r.Intn(12))
 	if r.Intn(10) == 0 {
 		body = strings.Repeat("xyz\r\n", r.Intn(40))
@@ -312,6 +315,7 @@ func main() {
 			ci = 1
 		}
 		var onePiece result
+		mismatched := false
 		for si, segs := range segsets {
 			got := implRun(client, limit, segs)
 			rep.Ops += len(segs)
@@ -336,11 +340,11 @@ func main() {
 					sg = "-"
 				}
 				want := m.Ask("%d %d %s", ci, limit, sg)
-				if got.out != want {
+				if got.out != want && !mismatched {
+					mismatched = true // keep going: the property oracle below may turn this into a concrete failing input
 					for _, p := range []string{"C06", "C08"} {
 						rep.Add(hx.Finding{Kind: "mismatch", Property: p, Signature: "httpparser-model", What: "implementation and model disagree\n impl =" + got.out + "\n model=" + want, Replay: replay})
 					}
-					break
 				}
 			}
 			// ---- O6: segmentation independence (implementation alone; the property is stated for the parser, limits aside)
